@@ -107,4 +107,7 @@ theorem failures_accumulate (p : BreakerCfg) (s : BreakerSt) (t t' : Int)
 example : (Breaker.run ⟨2, 10⟩ ⟨0, 0⟩ [(1, 1, false), (2, 2, false), (3, 3, true), (20, 20, true), (21, 21, true)]).2
     = [.failed, .failed, .refused, .ok, .ok] := by decide
 
+/-- the tie: ready/success/fail/reset (and the exported wrappers) were translated from the current source -/
+theorem tie_breaker : Gen.breakerTieOk = true := by decide
+
 end Rpcx.Props.C18
